@@ -664,6 +664,7 @@ def run_scenario(sc, budget=4000, wall=10, probes=None):
         loopmod.Loop._run_coroutine = orig_run
         loopmod.Loop.schedule = orig_sched
         wq.pop = orig_pop
+    info['parked'] = dict(env.waiting)      # waits that never completed (taken before the roots are closed below)
     if probes is not None:
         if err is None and env.loop_started:
             # the last time step ended without the loop asking for another one: check it like every other step
